@@ -391,7 +391,7 @@ def run(prop: str, tier: str) -> int:
             "tree it was given) is unchanged. Payload equality inside signatures is identity of the solver terms.")
     rep.bounds["search_grid"] = "find_nodes/find_node check: coefficients that must be concrete range over {-2, 0, 1, 3, 6, 0.5}"
     rep.assumptions = ["tree families and payload domains as in C01/C02; can_apply_to raising is recorded, not judged"]
-    budget = 420 if tier == "quick" else 3000
+    budget = 420 if tier == "quick" else 720
     items = [(prop, s, name) for s in sks for name, _ in RULES
              if not (s in V.AM_ONLY and name.startswith("DistributiveFactorOut"))]
     random.Random(seed()).shuffle(items)
